@@ -1,14 +1,41 @@
 /-
   Optional obligation: every function body of codec/binary_codec.go and every Calc body of codec/checksum.go, as translated
   into GoIR from the CURRENT sources, is statement for statement the committed translation `PinnedIR` that the theorems
-  `GoIR.ir_*` (Props/GoIR_*.lean) are about.  When it holds, those theorems are theorems about the code as it is now.
+  `GoIR.ir_*` (Props/GoIR_*.lean) are about.  When it holds, those theorems are theorems about the code as it is now
+  (`encOp_ir_repo`, `decOp_ir_repo`, `cks_ir_repo` below state the three assembled ones about `Gen.codecProg` itself).
   When it does not (a body was rewritten), nothing is concluded from it: the regenerated bodies are then only EXECUTED
   against the library and compared with the primitive model (driver commands irw / irr / irc).
 -/
 import FinProto.GenCodec
 import FinProto.GoIRSpec
+import FinProto.Props.GoIRTie
+import FinProto.Props.GoIRTieDec
 namespace FinProto.Obl
+open FinProto.GoIR
 
 theorem ir_repo : Gen.codecProg = GoIR.prog := by decide +kernel
+
+/-- the encoder leaves of the interpreter, against the library as it is in the tree now -/
+theorem encOp_ir_repo (env : Env) (encTy : Nat → Val → E Val) (zero : Nat → Val) (all : List Val) (ext : Ext Val)
+    (op : Op) (v : Val) (c : Nat × List Ty × List (V Val)) (hc : opWriter false op v = some c) (hok : opOK op v)
+    (hext : ∀ cw ty e, op = .objs cw ty e → ∀ o b, ext.enc o b = (encTy ty o b).map (·.2))
+    (buf : Bytes) (lf k : Nat) (hk : 4 ≤ k) :
+    WSpecE (runFn ext Gen.codecProg lf k c.1 c.2.1 c.2.2 buf) (encOp env encTy zero all op v buf) := by
+  rw [ir_repo]; exact encOp_ir env encTy zero all ext op v c hc hok hext buf lf k hk
+
+/-- the decoder leaves -/
+theorem decOp_ir_repo (env : Env) (decTy : Nat → R Val) (acc : List Val) (ext : Ext Val)
+    (op : Op) (c : Nat × List Ty × List (V Val)) (hc : opReader false op = some c) (hok : opOKr op)
+    (hext : ∀ cw ty e, op = .objs cw ty e → ∀ b, ext.dec ext.new b = decTy ty b)
+    (buf : Bytes) (lf k : Nat) (hlf : 2 ^ 64 ≤ lf) (hk : 4 ≤ k) :
+    RSpec (runFn ext Gen.codecProg lf k c.1 c.2.1 c.2.2 buf) vOfVal (decOp env decTy acc op buf) := by
+  rw [ir_repo]; exact decOp_ir env decTy acc ext op c hc hok hext buf lf k hlf hk
+
+/-- the checksum services -/
+theorem cks_ir_repo (ext : Ext Val) (a : Alg) (f : Nat)
+    (hf : (a = .crc16 ∧ f = ixCrc16) ∨ (a = .crc32 ∧ f = ixCrc32) ∨ (a = .sse ∧ f = ixSse) ∨ (a = .szse ∧ f = ixSzse))
+    (bs : Bytes) (lf k : Nat) (hlf : 9 ≤ lf) (hk : 1 ≤ k) :
+    runFn ext Gen.codecProg lf k f [] [] bs = .ret [.int (Int.ofNat (cksNat a bs))] bs := by
+  rw [ir_repo]; exact cks_ir ext a f hf bs lf k hlf hk
 
 end FinProto.Obl
